@@ -253,6 +253,15 @@ class MechAdapter(Adapter):
         B = self.B
         out = {}
         xa = ps.arr(B, x)
+        if obj.has_sensitivities():
+            # sensitivities were switched on earlier in the history: what
+            # the object returns *now*, without re-enabling them
+            y, s = obj.simulate(xa, self.times)
+            out['carried sens shape'] = tuple(np.shape(s))
+            for k in range(np.shape(s)[0]):
+                for o in range(np.shape(s)[1]):
+                    for j in range(np.shape(s)[2]):
+                        out['carried sens[%d,%d,%d]' % (k, o, j)] = s[k][o][j]
         obj.enable_sensitivities(False)
         y = obj.simulate(xa, self.times)
         for o in range(2):
@@ -292,6 +301,7 @@ class LLAdapter(Adapter):
                      for j in range(len(self.times[o]))]
                     for o in range(len(ems))]
         self._n = self.n_mech + sum(refs.em_nparams(e) for e in ems)
+        self.end_with_s1 = False
 
     def n(self):
         return self._n
@@ -327,7 +337,15 @@ class LLAdapter(Adapter):
     def evaluate(self, obj, x, free_idx):
         B = self.B
         xa = ps.arr(B, x)
-        out = {'value': obj(xa)}
+        out = {}
+        # gradient first: the mechanistic model is in whatever sensitivity
+        # state the history left it in
+        score, sens = obj.evaluateS1(xa)
+        out['S1-first score'] = score
+        out['len(S1-first sens)'] = len(sens)
+        for k in range(len(sens)):
+            out['S1-first sens[%d]' % k] = sens[k]
+        out['value'] = obj(xa)
         pw = obj.compute_pointwise_ll(xa)
         for j in range(len(pw)):
             out['pointwise[%d]' % j] = pw[j]
@@ -337,14 +355,17 @@ class LLAdapter(Adapter):
         for k in range(len(sens)):
             out['sens[%d]' % k] = sens[k]
         out['value after S1'] = obj(xa)
+        if self.end_with_s1:
+            obj.evaluateS1(xa)
         return out
 
     def restrict(self, full_out, free_idx):
         out = {k: v for k, v in full_out.items()
-               if not k.startswith('sens[')}
-        out['len(sens)'] = len(free_idx)
+               if not k.startswith(('sens[', 'S1-first sens['))}
+        out['len(sens)'] = out['len(S1-first sens)'] = len(free_idx)
         for q, j in enumerate(free_idx):
             out['sens[%d]' % q] = full_out['sens[%d]' % j]
+            out['S1-first sens[%d]' % q] = full_out['S1-first sens[%d]' % j]
         return out
 
 
@@ -401,6 +422,10 @@ def case_step(B, cfg):
     v1 = [B.var('v%d' % k) for k in range(n)]        # values of first call
     v2 = [B.var('w%d' % k) for k in range(n)]        # values of second call
     obj = A.reduced()
+    if cfg.get('sens_pre') and cfg['object'][0] == 'mech':
+        obj.enable_sensitivities(True)
+    if cfg.get('sens_pre') and cfg['object'][0] == 'll':
+        A.end_with_s1 = True
     d1 = {full_names[k]: v1[k] for k in pre}
     state = {k: v1[k] for k in pre}
     if d1:
@@ -435,6 +460,7 @@ def case_step(B, cfg):
         return
     got = A.evaluate(obj, [x[k] for k in free], free)
     want = A.restrict(A.evaluate(A.raw(), fullv, list(range(n))), free)
+    _carried(B, got, want)
     _compare(B, 'reduced = unfixed at substituted vector', got, want)
     # order independence: a fresh object with the single net dictionary
     fresh = A.reduced()
@@ -442,11 +468,28 @@ def case_step(B, cfg):
     if net:
         fresh.fix_parameters(net)
     got2 = A.evaluate(fresh, [x[k] for k in free], free)
+    _carried(B, got2, want)
     _compare(B, 'history = single net call', got, got2)
     B.fact('net call: names', list(A.names(fresh)) == list(A.names(obj)))
     # second evaluation of the same object: same result (buffer is not state)
     got3 = A.evaluate(obj, [x[k] for k in free], free)
+    _carried(B, got3, want)
     _compare(B, 'repeated evaluation', got3, got)
+
+
+def _carried(B, got, want):
+    """sensitivities returned while they were still enabled from earlier in
+    the history: the restricted sensitivities of the unfixed object"""
+    for k in [k for k in got if k.startswith('carried ')]:
+        a = got.pop(k)
+        b = want.get(k[len('carried '):])
+        tag = 'sensitivities still enabled from before the call: %s' % k
+        if b is None:
+            B.fact(tag, False, 'no such entry for the unfixed object')
+        elif isinstance(a, tuple):
+            B.fact(tag, a == b, '%r vs %r' % (a, b))
+        else:
+            B.eq(tag, a, b)
 
 
 def _compare(B, tag, got, want):
@@ -514,9 +557,11 @@ def jobs(tier):
             step = len(combos) / float(cap)
             combos = [combos[int(i * step)] for i in range(cap)]
         for j, (p, c) in enumerate(combos):
-            out.append(('step', 'case_step', dict(
-                object=spec, pre=p, call=c, evaluate_between=(j % 2 == 1)),
-                {'diffcheck': j % 5 == 0}))
+            cfg = dict(object=spec, pre=p, call=c,
+                       evaluate_between=(j % 2 == 1))
+            if spec[0] in ('mech', 'll'):
+                cfg['sens_pre'] = (j // 2) % 2 == 0
+            out.append(('step', 'case_step', cfg, {'diffcheck': j % 5 == 0}))
     return out
 
 
